@@ -17,6 +17,15 @@ s=open(p).read()
 def rep(m):
     ours,theirs=m.group(1),m.group(2)
     if strat=="smart":
+        if ours.strip().startswith('"') and theirs.strip().startswith('"'):
+            return "".join(sorted(set((ours+theirs).splitlines(True))))
+        if "clipName(fldName)" in ours and "fldName" in theirs:
+            t=theirs.replace('", fldName, err)','", clipName(fldName), err)').replace('%v", fldName, typ)','%v", clipName(fldName), typ)')
+            return t
+        if "func clipName" in ours and "func " in theirs:
+            return ours+"}\n\n"+theirs
+        if "mapConv map[_mapConversion]reflect.Value" in ours and "func " not in theirs:
+            return ours+theirs
         if "skipValue()" in ours and "func (d *Decoder) skipValue" not in ours and "d.ReadData()" in theirs:
             return re.sub(r'_, err = d\.ReadData\(\)','err = d.skipValue()',re.sub(r'_, err := d\.ReadData\(\)','err := d.skipValue()',theirs))
         if "func (d *Decoder) skipValue" in ours:
